@@ -145,6 +145,7 @@ structure RefEdit (env env' : Env) (r : RefId) : Prop where
   cached : env'.cached = env.cached
   allowNone : env'.allowNone = env.allowNone
   refs : ∀ r', r' ≠ r → env'.refs r' = env.refs r'
+  alive : env'.alive = env.alive
 
 theorem refEdit_cinv {env env' : Env} {lt : Node → Node → Prop} {s s' : St} {r : RefId}
     {R : List GNode} {D : RefId × Node → Prop}
@@ -206,6 +207,7 @@ structure CellEdit (env env' : Env) (c : CellId) : Prop where
   cached : ∀ c', c' ≠ c → env'.cached c' = env.cached c'
   allowNone : ∀ c', c' ≠ c → env'.allowNone c' = env.allowNone c'
   refs : env'.refs = env.refs
+  alive : env'.alive = env.alive
 
 theorem setFormula_cinv {env env' : Env} {lt : Node → Node → Prop} {s : St} {c : CellId}
     (hgi : GI env lt s) (hst : s.stack = []) (hinv : CInv env s) (hed : CellEdit env env' c) :
